@@ -1,7 +1,7 @@
 #!/bin/bash
-# usage: mut.sh <name> <file> <python-literal old> <python-literal new>
-export AITB_REPO=/var/tmp/rp/c12 AITB_CACHE=/var/tmp/aitb-cache
-cd /var/tmp/rp/c12 && git checkout -- . 
+# usage: tools/c12_mutate.sh <name> <file> <python-literal old> <python-literal new>
+: "${AITB_REPO:?set AITB_REPO to a scratch copy of the library (it is modified and reverted)}"
+cd $AITB_REPO && git checkout -- . 
 python3 - "$2" "$3" "$4" <<'PY'
 import sys
 f,old,new=sys.argv[1:4]
@@ -11,9 +11,9 @@ s=s.replace(old,new,1)
 open(f,'w').write(s)
 PY
 [ $? -ne 0 ] && { echo "MUTATION $1: pattern not found"; exit 1; }
-git -C /var/tmp/rp/c12 diff --stat | tail -1
-cd /var/tmp/wt/c12 && out=$(python3 tools/check.py C12 --tier quick 2>&1); rc=$?
+git -C $AITB_REPO diff --stat | tail -1
+cd "$(dirname "$0")/.." && out=$(python3 tools/check.py C12 --tier quick 2>&1); rc=$?
 echo "MUTATION $1: exit=$rc"; echo "$out" | grep -v KNOWN | tail -4
 for r in $(echo "$out" | grep -o 'replay=[^ ]*' | cut -d= -f2 | head -2); do python3 -c "
 import json,sys; r=json.load(open('$r')); print('   ', r.get('kind'), r.get('component'), r.get('clause'), (r.get('verdict') or r.get('detail') or str(r.get('broken'))[:300])[:300])"; done
-git -C /var/tmp/rp/c12 checkout -- .
+git -C $AITB_REPO checkout -- .
